@@ -71,6 +71,14 @@ def new_workspace(rng, nmods=None):
         ws["files"][f"sub{tag}.f90"] = su
     if rng.random() < 0.5:
         ws["files"][f"pp{tag}.F90"] = new_ppfile(rng, ws, f"pp{tag}")
+        if rng.random() < 0.5:
+            # a header the preprocessed file #includes by its bare name; whoever lays the workspace out
+            # decides whether it sits next to it or in the directory of some other source
+            ws["files"][f"hdr{tag}.h"] = {"kind": "header", "macros": [[f"FROM_HDR_{tag.upper()}", "1"]]}
+            ws["files"][f"pp{tag}.F90"]["header"] = f"hdr{tag}.h"
+            if rng.random() < 0.6:
+                # a second preprocessed source (possibly in another directory) without that header
+                ws["files"][f"pq{tag}.F90"] = new_ppfile(rng, ws, f"pq{tag}")
     return ws
 
 
@@ -412,11 +420,20 @@ def render(unit):
             ls += ["    " + st for st in unit.get("stmts", [])]
             ls.append(f"  end subroutine {p}")
         ls.append(f"end submodule {unit['name']}")
+    elif k == "header":
+        for mname, val in unit["macros"]:
+            ls.append(f"#define {mname} {val}")
     elif k == "ppmodule":
         for mname, val in unit["macros"]:
             ls.append(f"#define {mname} {val}")
+        if unit.get("header"):
+            ls.append(f"#include \"{unit['header']}\"")
         ls.append(f"module {unit['name']}")
         ls.append("  implicit none")
+        if unit.get("header"):
+            hm = "FROM_HDR_" + unit["header"][3:-2].upper()
+            ls += [f"#ifdef {hm}", f"  integer :: from_hdr_{unit['name']} = {hm}", "#else",
+                   f"  real :: no_hdr_{unit['name']}", "#endif"]
         m0 = unit["macros"][0][0] if unit["macros"] else "NOPE"
         ls.append(f"#ifdef {m0}")
         ls += decl(unit["vars"][0])
